@@ -105,6 +105,13 @@ def check(name, allrules=True):
         viol, errs = selftest.analyse_tree(d, witnesses=True)
         print(name, "VIOLATIONS:", json.dumps(viol, indent=1)[:3000])
         print(name, "ERRORS:", json.dumps(errs, indent=1)[:2000])
+        props_hit = sorted(pid for pid, spec in registry.PROPS.items()
+                           if any(r in viol for r in spec["rules"] + spec.get("witnesses", [])))
+        own = None
+        mp = os.path.join(dst, "meta.json")
+        if os.path.exists(mp):
+            own = json.load(open(mp)).get("property")
+        print(name, "PROPERTIES REPORTING:", props_hit, "| own property", own, "reported:", own in props_hit)
         return viol, errs
     finally:
         shutil.rmtree(d, ignore_errors=True)
